@@ -91,20 +91,23 @@ func runCapacity(d capDesc) capResult {
 	}
 	start := make(chan struct{})
 	var bg sync.WaitGroup
-	bg.Add(2)
-	go func() {
-		defer bg.Done()
-		<-start
-		for i := 0; !stop.Load(); i++ {
-			seeLen(st.length(), &maxLen)
-			lenSamples.Add(1)
-			if i%8 == 7 {
-				time.Sleep(20 * time.Microsecond)
-			} else {
-				runtime.Gosched()
+	var maxLens [3]atomic.Int64
+	bg.Add(1 + len(maxLens))
+	for si := range maxLens {
+		go func(m *atomic.Int64) {
+			defer bg.Done()
+			<-start
+			for i := 0; !stop.Load(); i++ {
+				seeLen(st.length(), m)
+				lenSamples.Add(1)
+				if i%8 == 7 {
+					time.Sleep(20 * time.Microsecond)
+				} else {
+					runtime.Gosched()
+				}
 			}
-		}
-	}()
+		}(&maxLens[si])
+	}
 	go func() {
 		defer bg.Done()
 		<-start
@@ -179,6 +182,11 @@ func runCapacity(d capDesc) capResult {
 	res.FinalLen = st.length()
 	if res.FinalLen > res.Bound {
 		storedAtExceed.CompareAndSwap(0, stored.Load())
+	}
+	for i := range maxLens {
+		if n := maxLens[i].Load(); n > maxLen.Load() {
+			maxLen.Store(n)
+		}
 	}
 	res.MaxLen = int(maxLen.Load())
 	if res.FinalLen > res.MaxLen {
